@@ -40,6 +40,8 @@ def generate(seed, tier):
         cfg["na"] = r.randint(1, 3) if (route == "module" or r.random() < 0.5) else None
     cfg["module_randomised"] = r.random() < 0.7
     cfg["module_zero_weights"] = route == "module" and r.random() < 0.25
+    # a single-precision user RBM (the positive wavefunction evaluates, samples and trains it as it is)
+    cfg["module_float32"] = route == "module" and typ == "positive" and r.random() < 0.3
     nops = r.randint(2, 7)
     # the first thing that happens after construction is not always an inspection
     ops = [{"op": "contract"}] if r.random() < 0.6 else []
@@ -107,6 +109,8 @@ def execute(plan):
                     g = np.random.Generator(np.random.PCG64(c["pseed"]))
                     for n, p in module.named_parameters():
                         p.data.copy_(torch.from_numpy(g.standard_normal(tuple(p.shape))).to(p.data))
+                if c.get("module_float32") and c["type"] == "positive":
+                    module = module.float()
                 module_before = net_snapshot(module)
                 state = new_state(c["type"], c["nv"] + 5, None, None, module=module)  # sizes must come from the module
             else:
